@@ -14,8 +14,9 @@ MANIFEST = {
             "perturbation: perm_r = perm_c, colcnt_h of cholnzcnt EQUAL to the extracted elimination model on A^T+A, the returned L structure EQUAL to the model's fill of the "
             "matrix itself (relax = 1, one worker) and inside the prediction (relax = 1, any number of workers), every LUSUP allocation inside its slot (hook), exact LU certificate gamma(n)|L||U| "
             "and exact backward error of X.",
-    "note": "diag_dominance_preserved (the diagonal stays nonzero during elimination) is a hypothesis of the property realised by "
-            "the generator; cholnzcnt is tied by exact comparison, not modelled. Trusted: Coq kernel, extraction, hooks, python exact oracles.",
+    "note": "the diagonal stays nonzero during elimination: proved for column diagonally dominant matrices in exact arithmetic "
+            "(Schur complement keeps the dominance), realised by the generator in rounded arithmetic; cholnzcnt is tied by exact "
+            "comparison, not modelled. Trusted: Coq kernel, extraction, hooks, python exact oracles.",
     "technique": "Coq proof (pivot rule at threshold 0, allocator arithmetic) + slot monitor + exact certificates on real symmetric-mode runs",
 }
 
@@ -159,7 +160,8 @@ def run(ctx):
     ctx.cov["correspondence"]["colcnt_h_equal_to_elimination_model_of_AT_plus_A"] = ntie
     ctx.cov["correspondence"]["L_structure_equal_to_elimination_model_one_worker_no_relaxation"] = ntie1
     ctx.log("symmetric-mode runs ok: %d" % nok)
-    ctx.cov["partial"] += ["diag_dominance_preserved (the diagonal stays nonzero for diagonally dominant matrices) is a hypothesis realised by the generator",
+    ctx.cov["partial"] += ["the diagonal stays nonzero for column diagonally dominant matrices: proved for exact arithmetic (c16_pivots_nonzero), "
+                           "in rounded arithmetic it is the generator's hypothesis (strongly dominant matrices)",
                            "cholnzcnt itself is not modelled: its output is compared exactly with the elimination model per run; relaxed supernodes "
                            "(relax > 1) add explicit zeros to L: the exact L-structure comparison runs on the relax = 1 cases, the slot monitor on all"]
 
